@@ -205,12 +205,18 @@ pub fn run(rep: &mut Report) {
     // targeted neighbourhoods with variables on the acted-on vertices (first two spiders)
     {
         let t0 = Instant::now();
-        let fam = targeted_family(if quick { 1 } else { 2 });
+        // thorough: the small neighbourhoods with all 16 parity pairs, then the large ones (k = 2, ~80 000 diagrams)
+        // with three pairs (the full product did not finish in 90 minutes)
+        let small = targeted_family(1).len();
+        let fam = if quick { targeted_family(1) } else { let mut f = targeted_family(1); f.extend(targeted_family(2)); f };
         let stats = sweep(&fam, |st, i, base| {
             for m0 in MASKS4 {
                 for m1 in MASKS4 {
                     // quick: the 8 pairs in which the two acted-on spiders carry different or overlapping parities
                     if quick && !matches!((m0, m1), (1, 0) | (0, 1) | (1, 1) | (1, 2) | (3, 1) | (1, 3) | (3, 3) | (2, 3)) {
+                        continue;
+                    }
+                    if i >= small && !matches!((m0, m1), (1, 2) | (3, 1) | (1, 1)) {
                         continue;
                     }
                     let mut spec = base.clone();
